@@ -73,3 +73,35 @@ Definition range_list (lo hi : N) : list N := map (fun k => lo + N.of_nat k) (se
 Fixpoint enumerate_from {A : Type} (i : N) (l : list A) : list (N * A) :=
   match l with [] => [] | x :: r => (i, x) :: enumerate_from (i + 1) r end.
 Definition enumerate_list {A : Type} (l : list A) : list (N * A) := enumerate_from 0 l.
+
+(* iter.step_by(k): the first element and then every k-th (k >= 1; the translation rejects k = 0) *)
+Fixpoint step_by_fuel (fuel k : nat) (l : list N) : list N :=
+  match fuel with
+  | O => []
+  | Datatypes.S f => match l with [] => [] | x :: _ => x :: step_by_fuel f k (skipn k l) end
+  end.
+Definition step_by_list (k : nat) (l : list N) : list N := step_by_fuel (length l) k l.
+
+(* iter.cycle(), first n items: core::iter::Cycle keeps the original iterator and a working copy; when
+   the working copy is exhausted it is replaced by a fresh clone, and if that clone is exhausted too
+   (an empty original) the cycle ends.  `a.zip(b.cycle())` therefore takes [length a] items of it. *)
+Fixpoint cycle_from {A : Type} (orig cur : list A) (n : nat) : list A :=
+  match n with
+  | O => []
+  | Datatypes.S m =>
+    match cur with
+    | k :: cur' => k :: cycle_from orig cur' m
+    | [] => match orig with
+            | [] => []
+            | k :: cur' => k :: cycle_from orig cur' m
+            end
+    end
+  end.
+Definition cycle_take {A : Type} (l : list A) (n : nat) : list A := cycle_from l l n.
+
+(* iter().enumerate().find(|(_, a)| **a == b): the first (index, element) whose element is b *)
+Fixpoint position_from (b : N) (l : list N) (i : N) : option (N * N) :=
+  match l with
+  | [] => None
+  | a :: r => if (a =? b)%N then Some (i, a) else position_from b r (i + 1)%N
+  end.
